@@ -669,6 +669,79 @@ def scriptedE : Except Err Val → Except Err Val
   | .error .index => .error .runtime
   | r => r
 
+/-- `torch.max(x)` of a whole tensor (`RuntimeError` when it has no element) -/
+def maxAllV : Val → Except Err Val
+  | .scalar x => .ok (.scalar x)
+  | .vec [] => .error .runtime
+  | .vec (x :: xs) => .ok (.scalar (xs.foldl xmax x))
+  | .mat r => match r.flatten with
+    | [] => .error .runtime
+    | x :: xs => .ok (.scalar (xs.foldl xmax x))
+  | _ => .error .type
+
+/-! ## primitives of the binned curve kernels (C06) -/
+
+/-- `torch.searchsorted(t, x, right=True)` for one value on a sorted row: the first index `i` with `x < t[i]` -/
+def xsearchsortedRight : List XQ → XQ → Nat
+  | [], _ => 0
+  | u :: t, x => if xlt x u then 0 else xsearchsortedRight t x + 1
+
+def searchsortedRV : Val → Val → Except Err Val
+  | .vec t, .vec x => .ok (.vec (x.map fun v => .val ((xsearchsortedRight t v : Nat) : Q)))
+  | .vec t, .scalar v => .ok (.scalar (.val ((xsearchsortedRight t v : Nat) : Q)))
+  | _, _ => .error .runtime
+
+/-- does `v` fall into bin `k` of `torch.histc(·, bins=b, min=0, max=b)` (unit width; the value `b` itself, = `max`, falls
+    into the last bin; everything outside `[0, b]`, NaN and ±inf are ignored) -/
+def xhistHit (bins k : Nat) : XQ → Bool
+  | .val q => q.floor == (k : Int) || (k + 1 == bins && q == (bins : Q))
+  | _ => false
+
+/-- `torch.histc(a, bins=b, min=0, max=b)`; `bins = 0` raises -/
+def histcUnitV (a b : Val) : Except Err Val := do
+  let e ← b.asElem
+  match a, xnat? e with
+  | .vec l, some bins =>
+    if bins = 0 then .error .runtime
+    else .ok (.vec ((List.range bins).map fun k => .val ((l.countP (xhistHit bins k) : Nat) : Q)))
+  | _, _ => .error .runtime
+
+/-- `a.reshape((r, c))` of a 1-d tensor -/
+def reshape2V (a r c : Val) : Except Err Val := do
+  let x ← r.asElem
+  let y ← c.asElem
+  match a, xnat? x, xnat? y with
+  | .vec l, some rows, some cols =>
+    if l.length = rows * cols then
+      .ok (.mat ((List.range rows).map fun i => (List.range cols).map fun j => l.getD (i * cols + j) (.val 0)))
+    else .error .runtime
+  | _, _, _ => .error .runtime
+
+/-- `.T` of a 2-d tensor -/
+def transposeV : Val → Except Err Val
+  | .mat m => .ok (.mat (xtranspose m (m.headD []).length))
+  | _ => .error .other
+
+/-- an operation on every row of a 2-d tensor (`flip(dims=(1,))`, `cumsum(dim=1)`) -/
+def rowsOp (f : List XQ → List XQ) : Val → Except Err Val
+  | .mat m => .ok (.mat (m.map f))
+  | _ => .error .index
+
+/-- `a[i]` of a 2-d tensor, `i ≥ 0` -/
+def rowAtV : Val → Int → Except Err Val
+  | .mat m, i => if 0 ≤ i then match m[i.toNat]? with | some r => .ok (.vec r) | none => .error .index else .error .other
+  | _, _ => .error .index
+
+/-- `a[i, :]` of a 2-d tensor with a Python integer `i ≥ 0` (a loop index) -/
+def rowDynV : Val → Val → Except Err Val
+  | .mat m, .int i => if 0 ≤ i then match m[i.toNat]? with | some r => .ok (.vec r) | none => .error .index else .error .other
+  | _, _ => .error .other
+
+/-- `torch.tensor([v₀, v₁, …])` of the 0-d results of a Python-level loop -/
+def collectV (l : List Val) : Except Err Val := do
+  let xs ← seqE (l.map Val.asElem)
+  pure (.vec xs)
+
 /-! ## expressions -/
 
 inductive TExpr where
@@ -720,6 +793,22 @@ inductive TExpr where
   | nanToNumTo (a v : TExpr) | neg (a : TExpr)
   | scripted (body : TExpr)                                    -- body of a `@torch.jit.script` function that indexes
   | arangeDown (n : TExpr) | zerosLike (a : TExpr) | maskedScatter (a m src : TExpr) | whereT (c a b : TExpr)
+  -- call of ANOTHER generated kernel (cross-module helper): the arguments are evaluated in the caller's environment, the
+  -- callee's term in the fresh environment that binds exactly its parameters
+  | call1 (p : String) (a : TExpr) (body : TExpr)
+  | call2 (p : String) (a : TExpr) (q : String) (b : TExpr) (body : TExpr)
+  | call3 (p : String) (a : TExpr) (q : String) (b : TExpr) (r : String) (c : TExpr) (body : TExpr)
+  | maxAll (a : TExpr)                                         -- `torch.max(a)`
+  -- binned curve kernels (C06)
+  | searchsortedR (t x : TExpr)                                -- `torch.searchsorted(t, x, right=True)`
+  | histcUnit (a bins : TExpr)                                 -- `torch.histc(a, bins=b, min=0, max=b)`
+  | reshape2 (a r c : TExpr) | transpose (a : TExpr)
+  | flipRows (a : TExpr) | cumsumRows (a : TExpr)              -- `flip(dims=(1,))`, `cumsum(dim=1)` of a 2-d tensor
+  | rowAt (a : TExpr) (i : Int)                                -- `a[i]` of a 2-d tensor
+  -- a Python-level loop that collects one 0-d tensor per index: `torch.tensor([body(i) for i in range(n)])`
+  | mapRange (n : TExpr) (i : String) (body : TExpr)
+  | rowDyn (a i : TExpr)                                       -- `a[i, :]` with the loop index `i`
+  | call4 (p : String) (a : TExpr) (q : String) (b : TExpr) (r : String) (c : TExpr) (s : String) (d : TExpr) (body : TExpr)
 deriving Repr, Inhabited
 
 /-- bitwise and of two non-negative integer elements (negative integers and non-integers are outside the
@@ -833,6 +922,27 @@ def eval (env : Env) : TExpr → Except Err Val
   | .maskedScatter a m src => do
     let x ← eval env a; let y ← eval env m; let z ← eval env src; maskedScatterV x y z
   | .whereT c a b => do let x ← eval env c; let y ← eval env a; let z ← eval env b; whereTV x y z
+  | .maxAll a => do let x ← eval env a; maxAllV x
+  | .searchsortedR t x => do let a ← eval env t; let b ← eval env x; searchsortedRV a b
+  | .histcUnit a b => do let x ← eval env a; let y ← eval env b; histcUnitV x y
+  | .reshape2 a r c => do let x ← eval env a; let y ← eval env r; let z ← eval env c; reshape2V x y z
+  | .transpose a => do let x ← eval env a; transposeV x
+  | .flipRows a => do let x ← eval env a; rowsOp List.reverse x
+  | .cumsumRows a => do let x ← eval env a; rowsOp (xcumsumFrom (.val 0)) x
+  | .rowAt a i => do let x ← eval env a; rowAtV x i
+  | .mapRange n i body => do
+    let c ← eval env n
+    let k ← sizeOf? c
+    let vs ← seqE ((List.range k).map fun (j : Nat) => eval ((i, .int ((j : Nat) : Int)) :: env) body)
+    collectV vs
+  | .rowDyn a i => do let x ← eval env a; let y ← eval env i; rowDynV x y
+  | .call4 p a q b r c s d body => do
+    let x ← eval env a; let y ← eval env b; let z ← eval env c; let w ← eval env d
+    eval [(p, x), (q, y), (r, z), (s, w)] body
+  | .call1 p a body => do let x ← eval env a; eval [(p, x)] body
+  | .call2 p a q b body => do let x ← eval env a; let y ← eval env b; eval [(p, x), (q, y)] body
+  | .call3 p a q b r c body => do
+    let x ← eval env a; let y ← eval env b; let z ← eval env c; eval [(p, x), (q, y), (r, z)] body
 
 /-! ## kernel table -/
 
